@@ -18,3 +18,15 @@ Theorem C05_routes_unchanged_iff :
   (diff_routes a b = nil <-> (forall s, In s (specs a) <-> In s (specs b))).
 Proof. exact linux_routes_unchanged_iff_proved. Qed.
 Print Assumptions C05_routes_unchanged_iff.
+
+(* iptables: no difference is reported only for a device with the same tables, the
+   same chains with the same policies and, rule by rule in order, the same options
+   with the same values (after the normalisation both sides went through) *)
+From NA Require Import Linux.IptProofs.
+Theorem C05_iptables_unchanged_only_if_equal :
+  forall a b, diff_iptables a b = None ->
+  ~ In ""%string (map tb_name a) -> ~ In ""%string (map tb_name b) -> Forall table_ok a -> Forall table_ok b ->
+  (forall n, In n (map tb_name a) <-> In n (map tb_name b)) /\
+  forall ta, In ta a -> exists tb, find_table b (tb_name ta) = Some tb /\ table_same ta tb.
+Proof. exact diff_iptables_none_sound. Qed.
+Print Assumptions C05_iptables_unchanged_only_if_equal.
